@@ -460,6 +460,34 @@ func (w *W) genBoundaryPairs(fn inputFn) {
 			}
 		}
 	}
+	// the same pairs with one or two whole 64-byte blocks of a single filler byte between
+	// them (blank blocks outside strings, plain blocks inside): what stage 1 carries from the
+	// byte before the gap must survive blocks in which nothing happens
+	for ctx := 0; ctx < 3; ctx++ {
+		var pre string
+		fill := " "
+		switch ctx {
+		case 0:
+			pre = "[1," + strings.Repeat(" ", 64-1-3)
+		case 1:
+			pre, fill = `["`+strings.Repeat("s", 64-1-2), "s"
+		case 2:
+			pre, fill = `{"`+strings.Repeat("k", 64-1-2), "k"
+		}
+		for _, gap := range []int{64, 128} {
+			for _, c1 := range alphabet {
+				for _, c2 := range alphabet {
+					for _, suf := range suffixes {
+						i++
+						if !w.mine(i) {
+							continue
+						}
+						fn("boundary-pair-gap", []byte(pre+string(c1)+strings.Repeat(fill, gap)+string(c2)+suf))
+					}
+				}
+			}
+		}
+	}
 }
 
 // genFillBlock slides tokens across the end of the 64-byte block in which an
@@ -649,6 +677,52 @@ func (w *W) genCarryThenNothing(fn inputFn) {
 			// the same with the dense part ending at the last byte of a 64-byte block
 			pad := (64 - (1+2*(k/2))%64) % 64
 			fn("carry-then-nothing", append(append(append([]byte("["), bytes.Repeat([]byte(" "), pad)...), bytes.Repeat([]byte("0,"), k/2)...), tail...))
+		}
+	}
+}
+
+// genDenseSizes: structurally dense valid documents (about one index entry per byte) of every
+// size from the sync/async threshold up to what 17 index buffers hold, in steps of 160 bytes:
+// wherever a size threshold between the one-goroutine and the two-goroutine path lies, dense
+// input on the wrong side of it overfills the channel. Also newline-dense NDJSON.
+func (w *W) genDenseSizes(fn inputFn) {
+	i := 0
+	for n := 7000; n <= 17*1408+300; n += 160 {
+		for kind := 0; kind < 4; kind++ {
+			i++
+			if !w.mine(i) {
+				continue
+			}
+			var b []byte
+			switch kind {
+			case 0:
+				b = append(b, '[')
+				for len(b) < n-3 {
+					b = append(b, "[],"...)
+				}
+				b = append(b, "[]]"...)
+			case 1:
+				b = append(b, '[')
+				for len(b) < n-2 {
+					b = append(b, "1,"...)
+				}
+				b = append(b, "1]"...)
+			case 2:
+				b = append(b, '{')
+				for len(b) < n-6 {
+					b = append(b, `"":0,`...)
+				}
+				b = append(b, `"":0}`...)
+			default:
+				// NDJSON-shaped: a document, a long run of blank lines, a document (every LF is an
+				// index entry in NDJSON mode; as one JSON text it is two documents: invalid for Parse)
+				b = append(b, `{"a":1}`...)
+				for len(b) < n-8 {
+					b = append(b, '\n')
+				}
+				b = append(b, `{"b":2}`...)
+			}
+			fn("dense-sizes", b)
 		}
 	}
 }
